@@ -337,7 +337,7 @@ DEFAULT = {
     "f_ms_shape": False, "f_ms_slice": "AUnknown", "f_ms_arg": "VUnknown", "f_ms_size": "VUnknown", "f_ms_num": "AUnknown",
     "f_rp_shape": False, "f_rp_init": "VUnknown", "f_rp_cond": {"AX": "AUnknown", "AY": "AUnknown", "AZ": "AUnknown"},
     "f_rp_flip": {"AX": "AUnknown", "AY": "AUnknown", "AZ": "AUnknown"}, "f_rp_size": "VUnknown", "f_rp_num": "AUnknown",
-    "f_vr_init": "VRInitOther", "f_vr_loop_ok": False, "f_vr_full_ok": False, "f_rg_default_empty": False, "f_rg_single": False,
+    "f_vr_init": "VRInitOther", "f_vr_loop_ok": False, "f_vr_full_ok": False, "f_vr_no_override": False, "f_rg_default_empty": False, "f_rg_single": False,
     "f_rg_extend_minmax": False, "f_rg_empty_def": False,
     "f_it_pre": "IncOther", "f_it_pre_ret_ok": False, "f_it_post": "IncOther", "f_it_ne_not_eq": False, "f_it_eq_ok": False,
     "f_clamp_def_ok": False, "f_box_size_def_ok": False,
@@ -835,6 +835,10 @@ def extract(repo, work, inc):
     box = [c for c in (rng_all or []) if any(x.get("kind") == "TemplateArgument" and VEC_RX.match(norm((x.get("type") or {}).get("qualType", ""))) for x in inner(c))]
     rng = [c for c in (rng_all or []) if any(x.get("kind") == "TemplateArgument" and norm((x.get("type") or {}).get("qualType", "")) == "int" for x in inner(c))]
     ex_value_range(cl.get("Array3D"), rng, g, notes)
+    over = [name for name, nodes in cl.items() if name != "Array3D" and methods(nodes, "getValueRange")]
+    g["f_vr_no_override"] = bool(cl.get("Array3D")) and not over
+    if over:
+        notes.append("getValueRange is redefined in: " + ", ".join(sorted(over)))
     ex_iterator(find_classes(sxast.dump(repo, work, TU, "multidim_index_iterator", "c17_facts", extra=extra)).get("multidim_index_iterator"), g, notes)
     ex_leaves(sxast.dump(repo, work, TU, "clamp", "c17_facts", extra=extra), box, g, notes)
     return g, notes
